@@ -15,7 +15,7 @@ SHRINK_RUNS = 400
 TIME_BUDGET = _c07.TIME_BUDGET
 REQUIRED = {
     'quick': {'death': 1000, 'all_dead': 100, 'retry_off': 1000, 'retry_on': 1000, 'return_results_off': 500, 'end:poolerror': 300,
-              'refusing_enqueue_fn': 100, 'poisoned': 50},
+              'refusing_enqueue_fn': 100, 'poisoned': 50, 'transient_enqueue_failure': 100, 'equal_inputs_and_death': 100},
     'thorough': {'death': 10000, 'all_dead': 1000, 'retry_off': 10000, 'retry_on': 10000, 'return_results_off': 5000, 'end:poolerror': 3000,
                  'refusing_enqueue_fn': 1000, 'poisoned': 500},
 }
